@@ -5,6 +5,12 @@ HERE = os.path.dirname(os.path.dirname(os.path.abspath(__file__)))
 PROPS = [json.loads(l) for l in open(os.path.join(HERE, 'properties.jsonl'))]
 
 CLAIMED = {
+ 'C11': dict(
+   category='proof',
+   text='InputStore.__getitem__ executed symbolically on the real code (config by A-CFG): the four outcomes are exactly spec unknown -> MissingInputSpecification, declared but not supplied -> MissingInput, supplied but rejected -> InvalidInput carrying the text, else the conversion of exactly the supplied text, validated before converted. Every input class (String, Boolean, Integer, Float, Enum with/without empty, Regex, SSN) on a symbolic string: valid() never raises; text that valid() accepts converts without error to the declared type; an accepted number is finite (float() by an assumed grammar that includes inf/infinity/nan). prompt_input (retry loop by the havoc rule): an answer is returned only if the validator accepts it, Ctrl-C means refused, other interruptions propagate. The solver stores an answer only after the validity assertion.',
+   design_ref='DESIGN 4 C11',
+   note='A-BUILTIN for float()/int()/str methods and regex match (uninterpreted, with the non-finite grammar), A-CFG; a bounded native enumeration of all strings up to length 3 (5 thorough) over 18 adversarial characters cross-checks the assumed grammars and is labelled bounded.',
+   technique='method contracts on the real input classes by symbolic execution over z3 strings'),
  'C01': dict(
    category='proof',
    text='The real Solver.solve, _attempt_field (incl. its self-recursion by contract), _attempt_input, _add_unattempted, _add_input_spec and the tracker methods are executed symbolically over abstract views (maps, multisets, sets) from an arbitrary state satisfying the invariant; the inductive invariant "no lost line" (every scheduled line has a value, is recorded unimplemented, is queued, waits on a field or input with a registered waiter, or is in the released list being iterated) with its coherence clauses is proved at entry, across every loop of solve() (havoc rule) and through every outcome of an attempt; at exit z3 proves: True is returned only if every scheduled line has a value, nothing is unimplemented and no line waits; False always comes with a non-empty diagnostic; exceptions of a line, an unsupported form or an invalid answer propagate unchanged. habutax.solve(args) is executed symbolically with all externals by contract: the success banner is printed iff solve() returned True, each non-empty diagnostic list is listed, no banner on abort. 834 obligations.',
